@@ -37,7 +37,7 @@ Definition size_line (sz:bytes) (n:N) : Prop := sz <> [] /\ hexnum 0 sz = Some n
 Record chunk := { sz : bytes; body : bytes }.
 
 Definition wf_chunk (c:chunk) : Prop :=
-  body c <> [] /\ (N.of_nat (length (body c)) < 2^62)%N /\ size_line (sz c) (N.of_nat (length (body c))).
+  body c <> [] /\ size_line (sz c) (N.of_nat (length (body c))).
 
 (* the optional last-chunk: its size line, any non-empty string of zeros *)
 Definition wf_last (l:option bytes) : Prop :=
